@@ -111,6 +111,7 @@ func (c17) Run(c core.Case, w *core.Worker) core.Result {
 	io.Track = dir
 	defer io.Install()()
 	s := core.NewSession(dir, sc.Cfg, &res)
+	s.Spell = c.Index%2 == 1 // every Open spells DirPath differently
 	s.IO = io
 	r := core.NewRng(c.Seed)
 	keys := core.GenKeys(r, sc.NKeys)
